@@ -658,8 +658,15 @@ Definition handle_bdat (cfg : config) (c : conn) (arg : bytes) : hres :=
     end in
   match err with
   | Some (e, pe) =>
-      (* failed chunk: "io.Copy(ioutil.Discard, chunk)" consumed the rest already
-         (t_copy_n took all [size] octets) *)
+      (* failed chunk: "io.Copy(ioutil.Discard, chunk)".  After a write error the
+         rest of the chunk has been consumed already (t_copy_n took all [size]
+         octets, or stopped at a failing read, where the discard stops too); after
+         a READ error the discard goes on reading the rest of the declared size *)
+      let '(_, _, t1) :=
+        match werr, cerr with
+        | None, Some _ => t_copy_n (size - blen chunk) t1
+        | _, _ => ([], None, t1)
+        end in
       let c1 := upd_bdat (upd_t c0 t1) (Some b1) in
       let '(c2, evr, closeit) :=
         if last && cf_lmtp cfg then
